@@ -2,6 +2,7 @@ package main
 
 import (
 	"fmt"
+	"reflect"
 	"strings"
 
 	"github.com/ogen-go/ogen/gen"
@@ -11,13 +12,19 @@ import (
 )
 
 // hand-written schemas with hand-written verdicts (JSON Schema as OpenAPI 3.0 reads it); the two recorded
-// deviations K19 / K20 are classified by the exact (operation, instance) pair, everything else here must agree
+// deviations K19 / K20 / K36 are classified by the exact (operation, instance) pair, everything else here must agree
 const c03HandDoc = `{"openapi":"3.0.3","info":{"title":"t","version":"1"},"paths":{
  "/nul":{"post":{"operationId":"nul","requestBody":{"required":true,"content":{"application/json":{"schema":{"allOf":[{"type":"string","nullable":true},{"type":"string","minLength":1}]}}}},"responses":{"200":{"description":"ok"}}}},
  "/ghost":{"post":{"operationId":"ghost","requestBody":{"required":true,"content":{"application/json":{"schema":{"type":"object","required":["ghost"],"properties":{"a":{"type":"integer"}}}}}},"responses":{"200":{"description":"ok"}}}},
  "/xmax":{"post":{"operationId":"xmax","requestBody":{"required":true,"content":{"application/json":{"schema":{"allOf":[{"type":"integer","maximum":10,"exclusiveMaximum":true},{"type":"integer","minimum":0}]}}}},"responses":{"200":{"description":"ok"}}}},
  "/xmin":{"post":{"operationId":"xmin","requestBody":{"required":true,"content":{"application/json":{"schema":{"allOf":[{"type":"integer","minimum":5,"exclusiveMinimum":true},{"type":"integer","minimum":10}]}}}},"responses":{"200":{"description":"ok"}}}},
  "/xeq":{"post":{"operationId":"xeq","requestBody":{"required":true,"content":{"application/json":{"schema":{"allOf":[{"type":"number","maximum":7},{"type":"number","maximum":7,"exclusiveMaximum":true},{"type":"number","minimum":-1,"exclusiveMinimum":true},{"type":"number","minimum":-3}]}}}},"responses":{"200":{"description":"ok"}}}},
+ "/enumnum":{"post":{"operationId":"enumnum","requestBody":{"required":true,"content":{"application/json":{"schema":{"allOf":[{"type":"number","enum":[1,2]},{"type":"number","enum":[1.0,2]}]}}}},"responses":{"200":{"description":"ok"}}}},
+ "/enumstr":{"post":{"operationId":"enumstr","requestBody":{"required":true,"content":{"application/json":{"schema":{"allOf":[{"type":"string","enum":["a","b","c"]},{"type":"string","enum":["b","c","d"]}]}}}},"responses":{"200":{"description":"ok"}}}},
+ "/strlen":{"post":{"operationId":"strlen","requestBody":{"required":true,"content":{"application/json":{"schema":{"allOf":[{"type":"string","minLength":2},{"type":"string","maxLength":4,"minLength":1}]}}}},"responses":{"200":{"description":"ok"}}}},
+ "/arrm":{"post":{"operationId":"arrm","requestBody":{"required":true,"content":{"application/json":{"schema":{"allOf":[{"type":"array","items":{"type":"integer"},"minItems":1},{"type":"array","items":{"type":"integer","maximum":5},"maxItems":2,"uniqueItems":true}]}}}},"responses":{"200":{"description":"ok"}}}},
+ "/shared":{"post":{"operationId":"shared","requestBody":{"required":true,"content":{"application/json":{"schema":{"allOf":[{"type":"object","properties":{"a":{"type":"integer","minimum":0}}},{"type":"object","required":["a"],"properties":{"a":{"type":"integer","maximum":5}}}]}}}},"responses":{"200":{"description":"ok"}}}},
+ "/addp":{"post":{"operationId":"addp","requestBody":{"required":true,"content":{"application/json":{"schema":{"allOf":[{"type":"object","properties":{"a":{"type":"integer"}},"additionalProperties":false},{"type":"object","properties":{"b":{"type":"string"}}}]}}}},"responses":{"200":{"description":"ok"}}}},
  "/both":{"post":{"operationId":"both","requestBody":{"required":true,"content":{"application/json":{"schema":{"oneOf":[{"$ref":"#/components/schemas/Cat"},{"$ref":"#/components/schemas/Dog"}]}}}},"responses":{"200":{"description":"ok"}}}},
  "/zero":{"post":{"operationId":"zero","requestBody":{"required":true,"content":{"application/json":{"schema":{"type":"object","properties":{"s":{"type":"string","maxLength":0},"a":{"type":"array","items":{"type":"integer"},"maxItems":0},"m":{"type":"object","additionalProperties":{"type":"integer"},"maxProperties":0}}}}}},"responses":{"200":{"description":"ok"}}}}
 },"components":{"schemas":{
@@ -34,6 +41,12 @@ var c03HandCases = []struct {
 	{"xmax", `9`, true, ""}, {"xmax", `10`, false, ""}, {"xmax", `0`, true, ""}, {"xmax", `-1`, false, ""}, {"xmax", `11`, false, ""},
 	{"xmin", `10`, true, ""}, {"xmin", `9`, false, ""}, {"xmin", `6`, false, ""}, {"xmin", `5`, false, ""}, {"xmin", `11`, true, ""},
 	{"xeq", `7`, false, ""}, {"xeq", `6.5`, true, ""}, {"xeq", `-1`, false, ""}, {"xeq", `-0.5`, true, ""}, {"xeq", `-3`, false, ""}, {"xeq", `8`, false, ""},
+	{"enumnum", `1`, true, ""}, {"enumnum", `2`, true, ""}, {"enumnum", `1.0`, true, ""}, {"enumnum", `3`, false, ""},
+	{"enumstr", `"b"`, true, ""}, {"enumstr", `"c"`, true, ""}, {"enumstr", `"a"`, false, ""}, {"enumstr", `"d"`, false, ""}, {"enumstr", `"e"`, false, ""},
+	{"strlen", `"ab"`, true, ""}, {"strlen", `"abcd"`, true, ""}, {"strlen", `"a"`, false, ""}, {"strlen", `"abcde"`, false, ""}, {"strlen", `""`, false, ""},
+	{"arrm", `[1]`, true, ""}, {"arrm", `[1,2]`, true, ""}, {"arrm", `[]`, false, ""}, {"arrm", `[1,1]`, false, ""}, {"arrm", `[6]`, false, ""}, {"arrm", `[1,2,3]`, false, ""},
+	{"shared", `{"a":3}`, true, ""}, {"shared", `{"a":0}`, true, ""}, {"shared", `{"a":5}`, true, ""}, {"shared", `{}`, false, ""}, {"shared", `{"a":-1}`, false, ""}, {"shared", `{"a":6}`, false, ""},
+	{"addp", `{"a":1}`, true, ""}, {"addp", `{}`, true, ""}, {"addp", `{"a":1,"b":"x"}`, false, "K36"}, {"addp", `{"a":1,"c":2}`, false, ""}, {"addp", `{"b":1}`, false, ""},
 	{"both", `{"meow":"m"}`, true, ""}, {"both", `{"bark":"b"}`, true, ""}, {"both", `{"meow":"m","bark":"b"}`, false, ""}, {"both", `{}`, false, ""}, {"both", `{"purr":1}`, false, ""},
 	{"zero", `{}`, true, ""}, {"zero", `{"s":"","a":[],"m":{}}`, true, ""}, {"zero", `{"s":"x"}`, false, ""}, {"zero", `{"a":[1]}`, false, ""}, {"zero", `{"m":{"k":1}}`, false, ""},
 }
@@ -169,4 +182,145 @@ func c03CountMerge(r *lp.Run, rng *lp.Rand) {
 		}
 	}
 	r.Exhaustive("allOf count merge", map[string]any{"kinds": 3, "grid": "6^4 per kind"})
+}
+
+// the allOf merge of enum lists against the Lean model (driver tag emerge): values are small integers, strings,
+// booleans, null, a float and nested values, numbered by their DeepEqual class
+func c03EnumMerge(r *lp.Run, rng *lp.Rand) {
+	pool := []any{nil, "a", "b", "", int64(1), int64(2), float64(1.5), true, false, []any{int64(1)}, map[string]any{"k": "v"}, "1"}
+	id := func(v any) int {
+		for i, p := range pool {
+			if reflect.DeepEqual(p, v) {
+				return i
+			}
+		}
+		return -1
+	}
+	show := func(ids []int) string {
+		if len(ids) == 0 {
+			return "-"
+		}
+		s := make([]string, len(ids))
+		for i, x := range ids {
+			s[i] = fmt.Sprint(x)
+		}
+		return strings.Join(s, ",")
+	}
+	one := func(a, b []int) {
+		mk := func(ids []int) []any {
+			var out []any
+			for _, i := range ids {
+				out = append(out, pool[i])
+			}
+			return out
+		}
+		out := lp.Guard(func() string {
+			m, err := gen.VerifMergeEnums(mk(a), mk(b))
+			if err != nil {
+				return "refused"
+			}
+			ids := make([]int, len(m))
+			for i, v := range m {
+				ids[i] = id(v)
+			}
+			return show(ids)
+		})
+		r.Case("emerge", show(a)+" "+show(b), out, fmt.Sprintf("emerge:%d:%d:%v", min(len(a), 3), min(len(b), 3), out == "refused"), len(a) > 0 && len(b) > 0)
+	}
+	// every pair of duplicate-free lists of length ≤ 2 over the first 5 values, in both orders
+	var small [][]int
+	small = append(small, nil)
+	for i := 0; i < 5; i++ {
+		small = append(small, []int{i})
+		for j := 0; j < 5; j++ {
+			if i != j {
+				small = append(small, []int{i, j})
+			}
+		}
+	}
+	for _, a := range small {
+		for _, b := range small {
+			one(a, b)
+		}
+	}
+	for i := 0; i < r.N(3000, 40000); i++ {
+		gen1 := func() []int {
+			n := rng.Intn(6)
+			perm := rng.Perm(len(pool))
+			return append([]int{}, perm[:n]...)
+		}
+		one(gen1(), gen1())
+	}
+}
+
+// the allOf merge of properties and required lists against the Lean model (driver tag pmerge)
+func c03PropMerge(r *lp.Run, rng *lp.Rand) {
+	show := func(ps []gen.VerifProp) string {
+		if len(ps) == 0 {
+			return "-"
+		}
+		s := make([]string, len(ps))
+		for i, p := range ps {
+			f := "0"
+			if p.Required {
+				f = "1"
+			}
+			s[i] = strings.TrimPrefix(p.Name, "n") + ":" + f
+		}
+		return strings.Join(s, ",")
+	}
+	showReq := func(req []string) string {
+		if len(req) == 0 {
+			return "-"
+		}
+		s := make([]string, len(req))
+		for i, n := range req {
+			s[i] = strings.TrimPrefix(n, "n")
+		}
+		return strings.Join(s, ",")
+	}
+	for i := 0; i < r.N(6000, 60000); i++ {
+		member := func() ([]gen.VerifProp, []string) {
+			perm := rng.Perm(6)
+			n := rng.Intn(5)
+			var ps []gen.VerifProp
+			var req []string
+			for _, k := range perm[:n] {
+				p := gen.VerifProp{Name: fmt.Sprintf("n%d", k)}
+				// mostly parser-consistent (flag ⇔ listed), sometimes a flag without a listing or a listing alone
+				switch rng.Intn(6) {
+				case 0, 1:
+					p.Required = true
+					req = append(req, p.Name)
+				case 2:
+					p.Required = true
+				case 3:
+					req = append(req, p.Name)
+				}
+				ps = append(ps, p)
+			}
+			if rng.Chance(25) { // a name that this member does not declare (the other may)
+				req = append(req, fmt.Sprintf("n%d", rng.Intn(7)))
+			}
+			return ps, req
+		}
+		p1, r1 := member()
+		p2, r2 := member()
+		out := lp.Guard(func() string {
+			m, err := gen.VerifMergeProperties(p1, r1, p2, r2)
+			if err != nil {
+				return "err " + err.Error()
+			}
+			return show(m)
+		})
+		shared := 0
+		for _, a := range p1 {
+			for _, b := range p2 {
+				if a.Name == b.Name {
+					shared++
+				}
+			}
+		}
+		r.Case("pmerge", show(p1)+" "+showReq(r1)+" "+show(p2)+" "+showReq(r2), out, fmt.Sprintf("pmerge:shared%d", min(shared, 2)), len(p1) > 0 && len(p2) > 0)
+	}
 }
